@@ -86,7 +86,7 @@ class SimRandom(random.Random):
     def getrandbits(self, k):
         if k >= 8 and self._inject():
             v = 0 if self._ctl.randrange(2) == 0 else (1 << k) - 1
-            self.injected.append(("getrandbits", k, v))
+            self.injected.append(("getrandbits", k, "all-ones" if v else 0))   # (the value itself can have thousands of digits)
             self.ctx.fault("extreme_draw")
             self.ctx.probe("extreme_getrandbits")
             return v
@@ -243,8 +243,9 @@ def run_one(ch, ctx):
     n = [None, 0, 1, 2, 3 + ch.draw(48)][mode]
     if mode == 4 and gstats.get("named", 0) > 4:
         n = min(n, 8)
-    if mode == 4 and ch.draw(300) == 299 and gstats.get("named", 0) <= 2 and not gstats.get("recursive"):
-        n = ch.pick([1000, 10000])
+    if mode == 4 and ch.draw(100) == 99 and gstats.get("named", 0) <= 4 and not gstats.get("recursive") \
+            and not gstats.get("wide_union") and not gstats.get("large_fixed"):
+        n = ch.pick([1001, 2500, 10000])   # long generator runs: per-call budgets, tables filling up
         ctx.probe("n_huge")
     if mode == 2 and ch.chance(20):
         n = True   # a bool is an int: exactly one value
